@@ -3,9 +3,13 @@ CONSTANTS
   Mode = 1
   MaxLen = 5
   MaxLenB = 3
+  MaxLenFam = 4
+  TopCombos = 2
   Level = 1
   SimMinLen = 1
   SimMaxLen = 0
+  Part1 = 0
+  Part2 = 0
 INIT Init
 NEXT Next
 INVARIANT Inv_MddRange
